@@ -97,3 +97,9 @@ META["C08"] = dict(
     text=("Generated (transform, filter, kernel, repeat, source) combinations with sample positions steered onto pixel boundaries; "
           "every fetched pixel compared bit for bit with an independent reference sampler."),
     note="Trusted: the reference sampler in props/sampling.cpp. Found and fixed: S2 (and S9 via C02).")
+META["C09"] = dict(
+    technique="metamorphic property-based testing (rapidcheck): equivalent presentations of the same opaque content must render identically",
+    design_ref="§4 C09",
+    text=("Generated base scenes rendered under pairs of equivalent presentations (alpha-less format, alpha 255, 565, solid, 1x1 "
+          "repeating; opaque masks; repeating opaque destinations) and compared bit for bit, under three implementation chains."),
+    note="Trusted: the equivalence rules listed in the assumptions. Found and fixed: S19.")
